@@ -215,7 +215,9 @@ def run_check(pid, tier="quick", seed=0):
     cand = list(unexplained[:MAX_CONFIRM])
     if len(unexplained) > MAX_CONFIRM:
         step = max(1, len(unexplained) // (MAX_TRIES - MAX_CONFIRM))
-        cand += [i for i in unexplained[MAX_CONFIRM::step] if i not in cand]
+        spaced = unexplained[MAX_CONFIRM::step]
+        for a, b in zip(spaced[::-1], spaced):  # from both ends inwards
+            cand += [x for x in (a, b) if x not in cand]
     for i in cand:
         if len(violations) >= MAX_CONFIRM or tried >= MAX_TRIES:
             break
